@@ -82,6 +82,46 @@ def _havoc_trails(self, st):
     st.trail_arr = z3.Const(f"trail_arr!{n}", z3.ArraySort(T.Val, z3.ArraySort(T.I, T.Val)))
 
 
+def _bridge(self, st, expr, name):
+    """Replace an array expression by a fresh constant `a` with  forall x. a[x] == expr[x]  and patterns on both
+    sides, so that E-matching can move between terms over the old and the new array (definitional, sound)."""
+    if z3.is_const(expr) and expr.decl().kind() == z3.Z3_OP_UNINTERPRETED:
+        return expr
+    self.ctx.fresh += 1
+    a = z3.Const(f"{name}!{self.ctx.fresh}", expr.sort())
+    dom = expr.sort().domain()
+    x = z3.Const("bx!", dom)
+    # peel the store chain: a[x] == ite(x == i1, v1, ite(x == i2, v2, ... base[x]))
+    e = expr
+    stores = []
+    while z3.is_app(e) and e.decl().kind() == z3.Z3_OP_STORE:
+        stores.append((e.arg(1), e.arg(2)))
+        e = e.arg(0)
+    if not (z3.is_const(e) and e.decl().kind() == z3.Z3_OP_UNINTERPRETED):
+        st.assume(a == expr)
+        return a
+    rhs = z3.Select(e, x)
+    for idx, val in reversed(stores):
+        rhs = z3.If(x == idx, val, rhs)
+    st.assume(z3.ForAll([x], z3.Select(a, x) == rhs, patterns=[z3.Select(a, x), z3.Select(e, x)]))
+    for idx, val in stores:
+        st.assume(z3.Select(a, idx) == z3.Select(expr, idx))
+    return a
+
+
+def _normalize_arrays(self, st):
+    for hid, h in st.heap.items():
+        if isinstance(h, HList) and h.items is None:
+            h.arr = self.bridge(st, h.arr, "arr")
+    if st.trail_len is not None:
+        st.trail_len = self.bridge(st, st.trail_len, "trail_len")
+        if not (z3.is_const(st.trail_arr) and st.trail_arr.decl().kind() == z3.Z3_OP_UNINTERPRETED):
+            # nested array: bridge the outer map only
+            st.trail_arr = self.bridge(st, st.trail_arr, "trail_arr")
+
+
+Interp.bridge = _bridge
+Interp.normalize_arrays = _normalize_arrays
 Interp.ensure_trails = _ensure_trails
 Interp.havoc_trails = _havoc_trails
 Interp.trail0 = None
@@ -93,7 +133,7 @@ def make_param(interp: Interp, st: St, name, kind):
         return const(kind[1])
     if kind == "D":
         return interp.new_datum(st, name)
-    if kind in ("LD", "DUMP", "ANY", "TOTAL"):
+    if kind in ("LD", "DUMP", "ANY", "TOTAL", "FACTORY"):
         v = V("sym", t=ctx.fresh_val(name))
         set_discipline(interp, v, kind)
         return v
@@ -130,7 +170,7 @@ def solver_for(interp: Interp, timeout_ms, ground=False):
 
 
 def ground_only(fs):
-    return [f for f in fs if not (isinstance(f, z3.ExprRef) and z3.is_quantifier(f))]
+    return [f for f in fs if not (isinstance(f, z3.ExprRef) and T.has_quantifier(f))]
 
 
 def run_unit(c: Contract, timeout_ms=10000, lookup=None):
@@ -162,7 +202,7 @@ def _run_instance(c, tree, mod, label, recv, rep, timeout_ms, lookup):
     rep.src = (sha, l0, l1)
     rep.decorators = extract.dropped_decorators(target_node)
     interp = Interp(ctx, vars(mod), contract_lookup=lookup, loop_specs=c.loops, unit_name=rep.name)
-    interp.loop_ordinals = extract.loop_ordinals(target_node)
+    interp.loop_ordinals = extract.module_loop_ordinals(tree, target_node)
     st = St()
     starts = []      # (st, Closure, free env V's for spec)
     if c.via is not None:
@@ -172,7 +212,11 @@ def _run_instance(c, tree, mod, label, recv, rep, timeout_ms, lookup):
             args.append(const(recv(mod)))
         for nm, kd in c.via.args.items():
             args.append(make_param(interp, st, nm, kd))
-        kwargs = {nm: make_param(interp, st, nm, kd) for nm, kd in c.via.kwargs.items()}
+        kinds = dict(c.via.kwargs)
+        kinds.update(c.via.instance_kwargs.get(label, {}))
+        kwargs = {nm: make_param(interp, st, nm, kd) for nm, kd in kinds.items()}
+        entry_names = dict(kwargs)
+        entry_names.update({nm: v for nm, v in zip(c.via.args, args[(1 if recv is not None else 0):])})
         is_gen = any(isinstance(n, (ast.Yield, ast.YieldFrom)) for n in Interp.walk_own(entry_node))
         clo = Closure(entry_node, {}, c.via.entry, None, is_gen)
         want = c.qual.split(".")[-1]
@@ -180,7 +224,7 @@ def _run_instance(c, tree, mod, label, recv, rep, timeout_ms, lookup):
             if r[0] != "ok":
                 continue          # factory declined on this path (e.g. CannotProvide) — not the unit under contract
             fv = r[1]
-            if fv.kind != "fn" or getattr(fv.d.node, "name", None) != want:
+            if fv.kind != "fn" or (getattr(fv.d.node, "name", None) != want and not c.via.any_closure):
                 continue
             starts.append((s1, fv.d))
         if not starts:
@@ -197,7 +241,10 @@ def _run_instance(c, tree, mod, label, recv, rep, timeout_ms, lookup):
         params = {}
         for nm, kd in c.params.items():
             params[nm] = make_param(interp, s0, nm, kd)
-        spec_names = dict(clo.env)
+        spec_names = dict(entry_names) if c.via is not None else {}
+        spec_names.update({k_: v_ for k_, v_ in clo.env.items() if isinstance(v_, V)})
+        for gn, gk in c.ghosts.items():
+            spec_names[gn] = make_param(interp, s0, gn, gk)
         spec_names.update(params)
         env0 = SpecEnv(interp, s0, spec_names)
         for rq in c.requires:
@@ -235,6 +282,7 @@ def _run_instance(c, tree, mod, label, recv, rep, timeout_ms, lookup):
         else:
             extra["result"] = r[1] if returned else dummy
         extra["exc"] = r[1] if not returned else dummy
+        interp.normalize_arrays(s1)
         env = SpecEnv(interp, s1, extra)
         okey = ("ret" if returned else "raise:" + (r[1].ty.__name__ if r[1].ty else "?"))
         rep.outcomes[okey] = rep.outcomes.get(okey, 0) + 1
